@@ -27,7 +27,12 @@ RULE = ('hist: hypothesis-generated histories: a pool of 2-4 documents (shared T
         'multi-clause for/some/every that rebind a name of an earlier clause, fn:serialize with every serialization '
         'parameter in map and element form (succeeding and failing values) on trees with tails, parse-xml, parse-json, '
         'json-to-xml, xml-to-json with options; scope programs contain multi-clause for/let/some/every binders in which '
-        'a later clause rebinds the name of an earlier one and a range expression in between reads it.')
+        'a later clause rebinds the name of an earlier one and a range expression in between reads it. '
+        'round 3: the variable maps of one history differ in SHAPE ($v bound to an item, a sequence, another type, a node; '
+        '$w / $zz present in some maps only; $seq / $nodes sometimes a bare item) and all tokens of a history are parsed by '
+        'one parser instance per version; mode "four" calls the module-level select() and iter_select() and '
+        'Selector.select() / iter_select() with the same full set of keyword arguments (namespaces, parser, uri, fragment, '
+        'item, position, size, axis, schema, variables, current_dt, timezone) and demands that the four agree.')
 ASSUMPTIONS = [
     'repeatability compares elementpath with itself (pooled selector/token vs freshly parsed expression on freshly '
     'built inputs): the property names this relation; both sides failing in the same way is not a C05 discrepancy',
@@ -46,10 +51,14 @@ FLOORS = {
     'hist:vars-reused-after-tz': (0.40, 'hist'),
     'step:lxml': (0.20, 'step'),
     'step:token-mode': (0.20, 'step'),
-    'step:function-item': (0.08, 'step'),
+    'hist:selector-with-2-variable-shapes': (0.50, 'hist'),
+    'step:poly-variable': (0.05, 'step'),
+    'step:entry-points-compared': (0.20, 'step'),
+    'step:entry-points-compared-with-tz': (0.40, 'step:entry-points-compared'),
+    'step:function-item': (0.06, 'step'),
     'step:serialize': (0.10, 'step'),
     'step:serialize-doc-with-tails': (0.40, 'step:serialize'),
-    'step:rebind': (0.03, 'step'),
+    'step:rebind': (0.015, 'step'),
     'scope:multi-clause-rebind': (0.10, 'scope'),
     'scope:shadowing': (0.40, 'scope'),
     'scope:free-variable': (0.05, 'scope'),
@@ -58,7 +67,7 @@ FLOORS = {
 
 NS = {'p': 'urn:p', 'q': 'urn:q', 'xs': 'http://www.w3.org/2001/XMLSchema'}
 FIXED_DT = datetime.datetime(2020, 5, 17, 10, 30, 0, tzinfo=datetime.timezone.utc)
-TZS = [None, 'Z', '+05:00', '-03:30', None, '+05:00']
+TZS = [None, 'Z', '+05:00', '-03:30', None, '+05:00', '-05:00']
 
 # --------------------------------------------------------------------------
 # expression templates: (name, minimal parser version, xpath)
@@ -147,6 +156,28 @@ TEMPLATES = [
     ('map-value', 31, "map{'k': ($d1, //a)}"),
     ('array-value', 31, '[$d1, $seq, //b]'),
     ('map-for-each', 31, 'map:for-each(map{$s: $n}, function($k, $v){($k, $v + 1)})'),
+    # one Selector / parser evaluated with variable maps of different SHAPES ($v: item, sequence, other type, node;
+    # $w and $zz present in some maps only) (round-3 hardening)
+    ('poly-count', 2, 'count($v) + count(//b)'),
+    ('poly-seq', 2, '($v, 1)'),
+    ('poly-first', 2, '$v[1]'),
+    ('poly-for', 2, 'for $x in $v return string($x)'),
+    ('poly-exists', 2, '(exists($v), empty($v), count($seq), count($nodes))'),
+    ('poly-instance', 2, '($v instance of item(), $v instance of item()+, $v instance of xs:integer*, $v instance of node()*)'),
+    ('poly-unused', 2, 'count(//*) + $n'),
+    ('poly-optional', 2, '($w, count($v))'),
+    ('poly-string-join', 2, "string-join(for $x in ($v, $seq) return string($x), ',')"),
+    ('poly-let', 3, 'let $k := $v return ($k, count($k))'),
+    ('poly-inline', 3, 'function($a){count($a)}($v)'),
+    ('poly-map', 31, "map{'v': $v}?v"),
+    ('poly-array', 31, '[$v, $seq]?*'),
+    # timezone-sensitive expressions for the agreement of the four entry points
+    ('tz-aware-lt', 2, "$d1 lt xs:dateTime('2000-01-01T12:00:00+02:00')"),
+    ('tz-aware-minus', 2, "xs:dateTime('2000-01-01T12:00:00Z') - $d1"),
+    ('tz-adjust-date', 2, 'adjust-date-to-timezone($dd)'),
+    ('tz-adjust-time', 2, 'adjust-time-to-timezone($t1)'),
+    ('tz-literal-eq', 2, "xs:dateTime('2000-01-01T12:00:00') eq xs:dateTime('2000-01-01T12:00:00Z')"),
+    ('tz-implicit-current', 2, '(implicit-timezone(), timezone-from-dateTime(current-dateTime()))'),
     # caller-owned function items in variables, partial application and reuse (round-2 hardening)
     ('fn-var-partial', 3, "$f3('a', ?, 'c')('b')"),
     ('fn-var-partial-then-full', 3, "($f3('a', ?, 'c')('b'), $f3('x', 'y', 'z'))"),
@@ -270,6 +301,32 @@ def build_ser_params(i):
     return root
 
 
+POLY_SHAPES = [['int', 1], ['ints', [1, 2, 3]], ['str', 'x'], ['int', 2], ['ints', [4, 5]], ['node'], ['nodes'], ['empty'],
+               ['strs', ['a', 'b']], ['dt', '2000-01-01T12:00:00'], ['mixed'], ['ints', [9]], ['dec', '1.5'], ['bool', True]]
+
+
+def build_poly(shape, e, dt):
+    k = shape[0]
+    if k in ('int', 'str', 'bool'):
+        return shape[1]
+    if k in ('ints', 'strs'):
+        return list(shape[1])
+    if k == 'node':
+        return e[0]
+    if k == 'nodes':
+        return [e[1], e[0]]
+    if k == 'empty':
+        return []
+    if k == 'dt':
+        return dt.DateTime10.fromstring(shape[1])
+    if k == 'dec':
+        import decimal
+        return decimal.Decimal(shape[1])
+    if k == 'mixed':
+        return [1, 'x', e]
+    raise ValueError(shape)
+
+
 def build_vars(vs, vdoc: Doc):
     o = _ep()
     dt = o['dt']
@@ -282,6 +339,14 @@ def build_vars(vs, vdoc: Doc):
         'e': e, 'nodes': [e[0], e[1]],
         'sp': build_ser_params(vs.get('sp', 0)),
     }
+    # variables whose shape differs between the maps of one history; 'w' / 'zz' exist in some maps only
+    for name in ('v', 'w', 'zz'):
+        if vs.get(name) is not None:
+            vars_[name] = build_poly(vs[name], e, dt)
+    if vs.get('seq1'):
+        vars_['seq'] = vs['seq'][0] if vs['seq'] else 7          # a bare item instead of a list
+    if vs.get('nodes1'):
+        vars_['nodes'] = e[1]
     # caller-owned function items: obtained once by the caller and handed in as variable values
     parser = o['parsers'][31]()
     ctx = o['ep'].XPathContext(e)
@@ -436,38 +501,52 @@ def canon_value(v, book, depth=0):
 # --------------------------------------------------------------------------
 # hist judge
 # --------------------------------------------------------------------------
-MODES = ['select', 'iter', 'token', 'tselect', 'both']
+MODES = ['select', 'iter', 'token', 'tselect', 'both', 'four', 'mselect', 'four', 'miter', 'token', 'tselect']
+FRAGMENTS = [None, None, None, False, True]
 
 
-def _context(root, vars_, tz, ns, item=None):
+def _context(root, vars_, tz, ns, item=None, uri=None, fragment=None):
     XPathContext = _ep()['ep'].XPathContext
-    return XPathContext(root, namespaces=ns, variables=vars_, timezone=tz, current_dt=FIXED_DT, item=item)
+    return XPathContext(root, namespaces=ns, uri=uri, fragment=fragment, item=item, position=1, size=1, axis=None,
+                        schema=None, variables=vars_, current_dt=FIXED_DT, timezone=tz)
 
 
-def _run(sel, tok, mode, root, vars_, tz, ns, book, item=None):
-    """-> ('v', canonical) | ('e', code) | ('x', exception) ; mode 'both' -> also compares select with iter_select"""
+def _outcome(fn, book):
+    """-> ('v', canonical) | ('e', code, exc) | ('x', exc)"""
     EPE = _ep()['ep'].ElementPathError
     try:
-        if mode == 'select':
-            r = sel.select(root, variables=vars_, timezone=tz, current_dt=FIXED_DT, namespaces=ns, item=item)
-        elif mode == 'iter':
-            r = list(sel.iter_select(root, variables=vars_, timezone=tz, current_dt=FIXED_DT, namespaces=ns, item=item))
-        elif mode == 'both':
-            r = sel.select(root, variables=vars_, timezone=tz, current_dt=FIXED_DT, namespaces=ns, item=item)
-            r2 = list(sel.iter_select(root, variables=vars_, timezone=tz, current_dt=FIXED_DT, namespaces=ns, item=item))
-            c1 = canon_value(r, book)
-            c2 = canon_value(r2, book)
-            # select() returns a bare value for a single atomic result: compare as sequences
-            return ('v', c1, c2)
-        elif mode == 'token':
-            r = tok.evaluate(_context(root, vars_, tz, ns, item))
-        else:
-            r = list(tok.select(_context(root, vars_, tz, ns, item)))
+        r = fn()
     except EPE as x:
         return ('e', (x.code or type(x).__name__).split(':')[-1], x)
     except Exception as x:
         return ('x', x)
     return ('v', canon_value(r, book))
+
+
+def _cmp_key(out):
+    return out[:2] if out[0] != 'x' else ('x', type(out[1]).__name__)
+
+
+def _run(sel, tok, mode, root, vars_, tz, ns, book, item=None, uri=None, fragment=None, path=None, cls=None):
+    """one evaluation through the entry point(s) of `mode`; every keyword argument of the dynamic context is passed.
+    'both': Selector.select and Selector.iter_select; 'four': the module-level select() and iter_select() and the two
+    Selector methods with the same keyword arguments -> ('multi', [outcomes]) ; else one outcome"""
+    ep = _ep()['ep']
+    ctx_kw = dict(namespaces=ns, uri=uri, fragment=fragment, item=item, position=1, size=1, axis=None, schema=None,
+                  variables=vars_, current_dt=FIXED_DT, timezone=tz)
+    entries = {
+        'select': lambda: sel.select(root, **ctx_kw),
+        'iter': lambda: list(sel.iter_select(root, **ctx_kw)),
+        'mselect': lambda: ep.select(root, path, parser=cls, **ctx_kw),
+        'miter': lambda: list(ep.iter_select(root, path, parser=cls, **ctx_kw)),
+        'token': lambda: tok.evaluate(_context(root, vars_, tz, ns, item, uri, fragment)),
+        'tselect': lambda: list(tok.select(_context(root, vars_, tz, ns, item, uri, fragment))),
+    }
+    if mode == 'both':
+        return ('multi', [('select', _outcome(entries['select'], book)), ('iter', _outcome(entries['iter'], book))])
+    if mode == 'four':
+        return ('multi', [(k, _outcome(entries[k], book)) for k in ('mselect', 'miter', 'select', 'iter')])
+    return _outcome(entries[mode], book)
 
 
 def judge_hist(case, rec: Recorder | None = None):
@@ -490,12 +569,15 @@ def judge_hist(case, rec: Recorder | None = None):
     doc_snap = [dump_tree(d.root) for d in docs]
     var_snap = [dump_vars(v) for v in varmaps]
     sels, toks = [], []
+    shared_parsers = {}          # ONE parser instance per version parses all the tokens of the history
     for name, ver in case['exprs']:
         _, minver, path = T_BY_NAME[name]
         cls = o['parsers'][max(ver, minver)]
+        if cls not in shared_parsers:
+            shared_parsers[cls] = cls(namespaces=ns)
         try:
             sels.append(o['ep'].Selector(path, namespaces=ns, parser=cls))
-            toks.append(cls(namespaces=ns).parse(path))
+            toks.append(shared_parsers[cls].parse(path))
         except o['ep'].ElementPathError as x:
             if name not in MAY_FAIL_STATICALLY:      # any other template that does not compile is a harness error
                 raise RuntimeError(f'template {name} does not compile: {x!r}')
@@ -504,11 +586,14 @@ def judge_hist(case, rec: Recorder | None = None):
             sels.append(err)
             toks.append(err)
     used_docs = [set() for _ in sels]
+    used_shapes = {}
     tz_seen = [False] * len(varmaps)
     hclasses = set()
     for si, step in enumerate(case['steps']):
         ei, mode, di, vi, ti = step[:5]
         with_item = len(step) > 5 and step[5]
+        fragment = step[6] if len(step) > 6 else None
+        uri = f'urn:c05:d{di % len(docs)}'
         ei %= len(sels)
         di %= len(docs)
         vi %= len(varmaps)
@@ -519,8 +604,9 @@ def judge_hist(case, rec: Recorder | None = None):
         def first_child(d):      # context item = first element child of the root element (when there is one)
             kids = [c for c in d.built.root if isinstance(c.tag, str)]
             return kids[0] if with_item and kids else None
+        cls = o['parsers'][max(ver, minver)]
         got = sels[ei] if isinstance(sels[ei], tuple) else \
-            _run(sels[ei], toks[ei], mode, doc.root, varmaps[vi], tz, ns, book, first_child(doc))
+            _run(sels[ei], toks[ei], mode, doc.root, varmaps[vi], tz, ns, book, first_child(doc), uri, fragment, path, cls)
         # fresh: new parser, new parse, freshly built document and variables
         fbook = Book()
         fdoc = Doc(case['docs'][di]['spec'], case['docs'][di]['backend'], case['docs'][di]['as_tree'])
@@ -529,15 +615,16 @@ def judge_hist(case, rec: Recorder | None = None):
         fbook.add(f'v{vi}', fvd)
         fvars = build_vars(case['vars'][vi], fvd)
         fns = dict(NS)
-        cls = o['parsers'][max(ver, minver)]
         try:
             fsel = o['ep'].Selector(path, namespaces=fns, parser=cls)
             ftok = cls(namespaces=fns).parse(path)
         except o['ep'].ElementPathError as x:
             fresh = ('e', (x.code or type(x).__name__).split(':')[-1], x)
         else:
-            fresh = _run(fsel, ftok, 'select' if mode == 'both' else mode, fdoc.root, fvars, tz, fns, fbook, first_child(fdoc))
-        where = f'step {si}: {name} [{path}] mode={mode} doc=d{di}({doc.backend}) vars=v{vi} tz={tz} item={bool(with_item)}'
+            fresh = _run(fsel, ftok, {'both': 'select', 'four': 'mselect'}.get(mode, mode), fdoc.root, fvars, tz, fns, fbook,
+                         first_child(fdoc), uri, fragment, path, cls)
+        where = f'step {si}: {name} [{path}] mode={mode} doc=d{di}({doc.backend}) vars=v{vi} tz={tz} ' \
+                f'item={bool(with_item)} fragment={fragment}'
         if rec is not None and first_child(doc) is not None:
             rec.cls('step:context-item')
         if rec is not None:
@@ -551,14 +638,24 @@ def judge_hist(case, rec: Recorder | None = None):
                 rec.cls('step:function-item')
             elif '-rebind' in name:
                 rec.cls('step:rebind')
+            elif name.startswith('poly-'):
+                rec.cls('step:poly-variable')
             if doc.backend == 'lxml':
                 rec.cls('step:lxml')
             if mode in ('token', 'tselect'):
                 rec.cls('step:token-mode')
-        if mode == 'both' and got[0] == 'v':
-            if got[1] != got[2]:
-                discs.append(Disc(f'C05/hist/select-ne-iter_select/{name}', got[1], got[2], where))
-            got = ('v', got[1])
+        if got[0] == 'multi':
+            # the entry points were called with the same keyword arguments: they must agree
+            (k0, first), rest = got[1][0], got[1][1:]
+            for k, out in rest:
+                if _cmp_key(out) != _cmp_key(first):
+                    cl = 'tz=set' if tz else 'tz=none'
+                    discs.append(Disc(f'C05/hist/entry-points-disagree/{k0}-vs-{k}/{name}/{cl}', _cmp_key(first), _cmp_key(out), where))
+            got = first
+            if rec is not None:
+                rec.cls('step:entry-points-compared')
+                if tz:
+                    rec.cls('step:entry-points-compared-with-tz')
         if got[0] == 'x' and fresh[0] == 'x' and type(got[1]) is type(fresh[1]):
             if rec is not None:
                 rec.cls('step:same-escape-both-sides')
@@ -570,6 +667,10 @@ def judge_hist(case, rec: Recorder | None = None):
             kind = 'result' if got[0] == fresh[0] == 'v' else 'error'
             reuse = 'first-use' if not used_docs[ei] else 'same-doc' if used_docs[ei] == {di} else 'after-other-doc'
             discs.append(Disc(f'C05/hist/{kind}-differs-from-fresh/{name}/{reuse}', fresh[:2], got[:2], where))
+        shape = repr((case['vars'][vi].get('v'), case['vars'][vi].get('w') is not None, case['vars'][vi].get('zz') is not None))
+        used_shapes.setdefault(ei, set()).add(shape)
+        if len(used_shapes[ei]) >= 2 and mode in ('select', 'iter', 'both', 'four'):
+            hclasses.add('hist:selector-with-2-variable-shapes')
         used_docs[ei].add(di)
         if len(used_docs[ei]) >= 2:
             hclasses.add('hist:selector-on-2-docs')
@@ -922,11 +1023,12 @@ class Src:
 
 _T2 = [t[0] for t in TEMPLATES if t[1] == 2]
 _TALL = [t[0] for t in TEMPLATES]
-_DT_T = [t[0] for t in TEMPLATES if t[0].startswith(('dt-', 'time-', 'date-'))]
+_DT_T = [t[0] for t in TEMPLATES if t[0].startswith(('dt-', 'time-', 'date-', 'tz-', 'implicit-'))]
 _FN_T = [t[0] for t in TEMPLATES if t[1] >= 3]
 _FNITEM_T = [t[0] for t in TEMPLATES if t[0].startswith('fn-')]
 _SER_T = [t[0] for t in TEMPLATES if t[0].startswith(('ser-', 'parse-', 'json-', 'xml-to-json'))]
 _REBIND_T = [t[0] for t in TEMPLATES if '-rebind' in t[0]]
+_POLY_T = [t[0] for t in TEMPLATES if t[0].startswith('poly-')]
 
 
 def decode_hist(parts):
@@ -938,24 +1040,27 @@ def decode_hist(parts):
     nex = 3 + s.n(4)
     exprs = []
     for _ in range(nex):
-        c = s.n(12)
-        name = (s.pick(_DT_T) if c < 2 else s.pick(_FNITEM_T) if c < 4 else s.pick(_SER_T) if c < 7 else
-                s.pick(_REBIND_T) if c < 8 else s.pick(_FN_T) if c < 10 else s.pick(_TALL))
+        c = s.n(15)
+        name = (s.pick(_DT_T) if c < 3 else s.pick(_FNITEM_T) if c < 5 else s.pick(_SER_T) if c < 8 else
+                s.pick(_REBIND_T) if c < 9 else s.pick(_FN_T) if c < 10 else s.pick(_POLY_T) if c < 13 else s.pick(_TALL))
         exprs.append([name, s.pick([2, 3, 31, 31])])
     vars_ = []
     for _ in range(2 + s.n(2)):
         vars_.append({'n': s.pick([2, 1, 0, 3]), 's': s.pick(['t', '1', 'x y', '']), 'seq': s.many(lambda: s.pick([1, 2, 3, 5]), 0, 4),
                       'd1': s.pick(DT_POOL), 'd2': s.pick(DT_POOL), 't1': s.pick(TIME_POOL), 'dd': s.pick(DATE_POOL),
-                      'sp': s.n(len(SER_PARAM_SETS))})
+                      'sp': s.n(len(SER_PARAM_SETS)),
+                      # shapes differ per map: $v item / sequence / other type / node; $w, $zz only in some maps
+                      'v': s.pick(POLY_SHAPES), 'w': s.pick(POLY_SHAPES) if s.n(2) else None,
+                      'zz': s.pick(POLY_SHAPES) if s.n(3) == 0 else None, 'seq1': s.n(5) == 0, 'nodes1': s.n(5) == 0})
     steps = []
     for i in range(0, len(step_bytes) - 5, 6):
         b = step_bytes[i:i + 6]
         if not any(b):
             # hypothesis pads size-capped examples with zero bytes: replace the degenerate step by a round-robin sweep
             k = i // 6
-            b = bytes([k, k, k // 2, k // 3, k, k])
+            b = bytes([k, k, k // 2, k, k, k])
         steps.append([b[0] % nex, MODES[b[1] % len(MODES)], b[2] % len(docs), b[3] % len(vars_), b[4] % len(TZS),
-                      b[5] % 4 == 3])
+                      b[5] % 4 == 3, FRAGMENTS[(b[5] // 4) % len(FRAGMENTS)]])
     return {'docs': docs, 'exprs': exprs, 'vars': vars_, 'steps': steps}
 
 
